@@ -15,6 +15,13 @@ C10 — Higher-consistency requests are never stale.
     iterator cache, the shared-iterator storage and the sub-problem cache, a HIGHER request is evaluated
     by exactly the derivations of the cache-less engine on the current store: same reader, `noFacts`.
     `higher_bypass_check` instantiates it with the model of the default Check engine.
+  * `tie_reader_sites`, `reader_sites_pass_consistency`, `tie_reader_site_evidence`, `handoffs_forward_preference`,
+    `higher_bypass_at_sites`, `dropped_consistency_can_be_stale` — the storage-level tests only help when the
+    reads carry the request's preference: every construction site of a reader / caching wrapper in the engines
+    is listed (a new site must be classified), every cache-capable one is shown to hand the preference on
+    (`pipeline.NewValidatingStore` stamps its own `consistency` on every read: it must be given
+    `WithStoreConsistency(req.GetConsistency())`), and every hand-off between handlers, commands and engines
+    forwards it.
   * `unguarded_layer_can_be_stale` — the guards are needed: without one, some cache content changes what
     the reader returns for a HIGHER request.
 -/
@@ -100,6 +107,72 @@ theorem tie_wrapper_order :
        "tupleReader := sharediterator.NewSharedIteratorDatastore(tupleReader)",
        "combinedTupleReader := NewCombinedTupleReader(tupleReader)"] := rfl
 
+/-! ### construction sites of readers -/
+
+/-- **The site list.**  Every construction of a tuple reader / caching wrapper in the engines (pkg/server,
+internal), in source order: a NEW construction site changes this list and has to be classified here. -/
+theorem tie_reader_sites :
+    Gen.CacheSites.readerSites.map (fun s => (s.2.1, s.2.2.1)) =
+      [("pkg/server/commands:CheckQueryV2.resolve", "storagewrappers.NewBoundedTupleReader"),
+       ("pkg/server/commands:CheckQueryV2.resolve", "storagewrappers.NewCachedTupleReader"),
+       ("pkg/server/commands:CheckQuery.Execute", "storagewrappers.NewRequestStorageWrapperWithCache"),
+       ("pkg/server/commands:ExpandQuery.Execute", "storagewrappers.NewCombinedTupleReader"),
+       ("pkg/server/commands:ListObjectsQuery.evaluate", "storagewrappers.NewRequestStorageWrapperWithCache"),
+       ("pkg/server/commands:ListObjectsQuery.Execute", "storagewrappers.NewRequestStorageWrapperWithCache"),
+       ("pkg/server/commands:ListObjectsQuery.Execute", "pipeline.NewValidatingStore"),
+       ("pkg/server/commands:ListObjectsQuery.ExecuteStreamed", "storagewrappers.NewRequestStorageWrapperWithCache"),
+       ("pkg/server/commands:ListObjectsQuery.ExecuteStreamed", "pipeline.NewValidatingStore"),
+       ("pkg/server/commands/listusers:NewListUsersQuery", "storagewrappers.NewRequestStorageWrapper")] := by decide
+
+/-- **Every cache-capable site hands on the request's preference**: both `pipeline.NewValidatingStore`
+constructions (unary and streamed ListObjects) receive `pipeline.WithStoreConsistency(req.GetConsistency())`;
+the functions that build a caching request wrapper (Check, the classic / weighted ListObjects path, both
+pipeline branches) or the cached reader of the weighted-graph Check pass the preference to the engine they
+start, and pass nothing else.  The three remaining sites (Expand, ListUsers, the bounded reader of the
+weighted-graph Check) build readers that have no cache. -/
+theorem reader_sites_pass_consistency :
+    (Gen.CacheSites.readerSites.filter ReaderSite.cacheCapable).all ReaderSite.passes = true ∧
+    (Gen.CacheSites.readerSites.filter ReaderSite.cacheCapable).length = 7 := by decide
+
+/-- per site: the evidence the classification rests on (dropping an option or a `Consistency:` field changes it) -/
+theorem tie_reader_site_evidence :
+    (Gen.CacheSites.readerSites.filter ReaderSite.cacheCapable).map (fun s => s.2.2.2) =
+      [[("lit", "check.RequestParams", "params.Consistency")],
+       [("lit", "graph.ResolveCheckRequestParams", "params.Consistency")],
+       [("lit", "reverseexpand.ReverseExpandRequest", "req.GetConsistency()"), ("lit", "CheckCommandParams", "req.GetConsistency()")],
+       [("opt", "pipeline.WithStoreConsistency", "req.GetConsistency()")],
+       [("arg", "pipeline.WithStoreConsistency", "req.GetConsistency()"), ("opt", "pipeline.WithStoreConsistency", "req.GetConsistency()")],
+       [("opt", "pipeline.WithStoreConsistency", "req.GetConsistency()")],
+       [("arg", "pipeline.WithStoreConsistency", "req.GetConsistency()"), ("opt", "pipeline.WithStoreConsistency", "req.GetConsistency()")]] := by decide
+
+/-- **Every hand-off of a consistency preference** between the API handlers, the commands and the engines
+(Check, BatchCheck, ListObjects, ListUsers, Expand, Read; request clones included) forwards the preference of
+the request being served — and the chain has no missing link: the list of carriers is pinned. -/
+theorem handoffs_forward_preference :
+    Gen.CacheSites.consistencyHandoffs.all (fun h => handoffExprs.contains h.2.2.2.2) = true ∧
+    Gen.CacheSites.consistencyHandoffs.map (fun h => (h.2.1, h.2.2.2.1)) =
+      [("internal/check:NewRequest", "Request"),
+       ("internal/check:Request.cloneWithTupleKey", "Request"),
+       ("internal/graph:NewResolveCheckRequest", "ResolveCheckRequest"),
+       ("internal/graph:ResolveCheckRequest.clone", "ResolveCheckRequest"),
+       ("pkg/server:Server.BatchCheck", "commands.BatchCheckCommandParams"),
+       ("pkg/server:Server.Check", "commands.CheckCommandParams"),
+       ("pkg/server:Server.v2Check", "commands.CheckCommandParams"),
+       ("pkg/server/commands:BatchCheckQuery.Execute", "CheckCommandParams"),
+       ("pkg/server/commands:CheckQueryV2.resolve", "check.RequestParams"),
+       ("pkg/server/commands:CheckQuery.Execute", "graph.ResolveCheckRequestParams"),
+       ("pkg/server/commands:ListObjectsQuery.evaluate", "reverseexpand.ReverseExpandRequest"),
+       ("pkg/server/commands:ListObjectsQuery.evaluate", "CheckCommandParams"),
+       ("pkg/server/commands:ListObjectsQuery.Execute", "pipeline.WithStoreConsistency"),
+       ("pkg/server/commands:ListObjectsQuery.ExecuteStreamed", "pipeline.WithStoreConsistency"),
+       ("pkg/server/commands/listusers:fromListUsersRequest", "openfgav1.ListUsersRequest"),
+       ("pkg/server/commands/reverseexpand:ReverseExpandQuery.execute", "ReverseExpandRequest"),
+       ("pkg/server/commands/reverseexpand:ReverseExpandQuery.readTuplesAndExecute", "ReverseExpandRequest"),
+       ("pkg/server/commands/reverseexpand:ReverseExpandQuery.callCheckForCandidate", "graph.ResolveCheckRequest"),
+       ("pkg/server:Server.Expand", "openfgav1.ExpandRequest"),
+       ("pkg/server:Server.ListObjects", "openfgav1.ListObjectsRequest"),
+       ("pkg/server:Server.Read", "openfgav1.ReadRequest")] := by decide
+
 /-! ### the bypass theorem -/
 
 section
@@ -127,6 +200,37 @@ theorem higher_bypass_check (mkWorld : (Key → Val) → CheckV1.World)
     iterCache sharedCache queryCache db
   exact Iff.of_eq this
 end
+
+/-- **Bypass at every construction site.**  For every cache-capable reader construction of the engines (as
+regenerated from the source), the reads of a HIGHER request through its product carry HIGHER
+(`effectivePref … = .higher` because the site passes the preference on) and therefore reach the datastore
+itself, whatever the caches hold. -/
+theorem higher_bypass_at_sites {Key Val : Type} (s : ReaderSite) (hs : s ∈ Gen.CacheSites.readerSites)
+    (hc : s.cacheCapable = true) (iterCache sharedCache : Key → Option Val) (db : Key → Val) :
+    stack guards (effectivePref Pref.unspecified s.passes .higher) iterCache sharedCache db = db := by
+  have hp : s.passes = true := by
+    have h := reader_sites_pass_consistency.1
+    rw [List.all_eq_true] at h
+    exact h s (List.mem_filter.mpr ⟨hs, hc⟩)
+  have hg := guards_hold
+  rw [hp]
+  exact stack_higher guards (by rw [hg]) (by rw [hg]) iterCache sharedCache db
+
+/-- **the hand-off is needed**: a site that does not pass the preference on (reads go out UNSPECIFIED) lets
+the iterator cache answer a HIGHER request -/
+theorem dropped_consistency_can_be_stale :
+    ∃ (iterCache sharedCache : Nat → Option Nat) (db : Nat → Nat),
+      stack guards (effectivePref Pref.unspecified false .higher) iterCache sharedCache db ≠ db := by
+  refine ⟨fun _ => some 1, fun _ => none, fun _ => 0, ?_⟩
+  intro h
+  have := congrFun h 0
+  revert this
+  rw [guards_hold]
+  decide
+
+/-- a site without the option does not pass (the classification is not vacuous) -/
+example : ReaderSite.passes ("f.go", "p:F", "pipeline.NewValidatingStore", [("lit", "X", "req.GetConsistency()")]) = false := by decide
+example : ReaderSite.passes ("f.go", "p:F", "storagewrappers.NewRequestStorageWrapperWithCache", []) = false := by decide
 
 /-- a request that is not HIGHER may be served from the caches (the statement is not vacuous: the
 wrappers do change what is read) -/
